@@ -221,13 +221,27 @@ theorem plainFields_none (deps : List Dep) (table : String) (fields : List Strin
   have h : ∀ f : String, (some f != (none : Option String)) = true := fun f => by simp
   simp [h]
 
+theorem plainFields_some_ref (deps : List Dep) (table : String) (fields : List String) (c : String)
+    (hc : isRef deps table c = true) :
+    plainFields deps table fields (some c) =
+      (fields.filter (fun f => !isRef deps table f)).map (fun f => (f, f)) := by
+  unfold plainFields
+  simp only [hc, if_true]
+  congr 1
+  apply List.filter_congr
+  intro x _
+  by_cases hx : x = c
+  · subst hx; simp [hc]
+  · have h1 : (some x != some c) = true := by simp [hx]
+    rw [h1, Bool.and_true]
+
 theorem plainFields_some (deps : List Dep) (table : String) (fields : List String) (c : String)
-    (h : fields.filter isRecordTypeName = [c]) :
+    (h : fields.filter isRecordTypeName = [c]) (hc : isRef deps table c = false) :
     plainFields deps table fields (some c) =
       (fields.filter (fun f => !isRef deps table f && f != c)).map (fun f => (f, f))
         ++ [("RecordTypeId", c)] := by
   unfold plainFields
-  simp only
+  simp only [hc, Bool.false_eq_true, if_false]
   have hfilt : (fields.filter (fun f => !isRef deps table f && some f != some c))
       = fields.filter (fun f => !isRef deps table f && f != c) := by
     apply List.filter_congr
@@ -264,76 +278,87 @@ theorem filter_eq_singleton_of_recordType (fields : List String) (c : String)
   rw [this, h]
   simp
 
-/-- columns of the plain fields + lookup fields = the step's fields (as a multiset), provided the
-    record-type column (if any) holds no reference -/
+/-- columns of the plain fields + lookup fields = the step's fields (as a multiset) -/
 theorem partition_perm (deps : List Dep) (table : String) (fields : List String) (rt : Option String)
-    (hrt : findRecordTypeColumn table fields = .ok rt)
-    (hnr : ∀ c, rt = some c → isRef deps table c = false) :
+    (hrt : findRecordTypeColumn table fields = .ok rt) :
     ((plainFields deps table fields rt).map Prod.snd ++
         (lookupsOf deps table fields).map Lookup.field).Perm fields := by
   rw [lookupsOf_fields]
+  have hmapid : ∀ l : List String, List.map (Prod.snd ∘ fun f => (f, f)) l = l := by
+    intro l; simp [Function.comp_def]
   cases rt with
   | none =>
     rw [plainFields_none]
     simp only [List.map_map]
-    have : (List.map (Prod.snd ∘ fun f => (f, f)) (fields.filter (fun f => !isRef deps table f)))
-        = fields.filter (fun f => !isRef deps table f) := by simp [Function.comp_def]
-    rw [this]
+    rw [hmapid]
     exact (List.perm_append_comm).trans (List.filter_append_perm _ _)
   | some c =>
     have huniq := recordType_unique table fields c hrt
-    rw [plainFields_some deps table fields c huniq]
-    simp only [List.map_append, List.map_map, List.map_cons, List.map_nil]
-    have h1 : (List.map (Prod.snd ∘ fun f => (f, f))
-        (fields.filter (fun f => !isRef deps table f && f != c)))
-        = fields.filter (fun f => !isRef deps table f && f != c) := by simp [Function.comp_def]
-    rw [h1]
-    -- non-reference fields = (those ≠ c) ++ [c]
-    have hsplit : (fields.filter (fun f => !isRef deps table f && f != c) ++ [c]).Perm
-        (fields.filter (fun f => !isRef deps table f)) := by
-      have hc := filter_eq_singleton_of_recordType fields c huniq
-      have hcn := hnr c rfl
-      have e2 : (fields.filter (fun f => !isRef deps table f)).filter (fun f => f == c) = [c] := by
-        rw [List.filter_filter]
-        rw [← hc]
-        apply List.filter_congr
-        intro x _
-        by_cases hx : x = c <;> simp [hx, hcn]
-      have e1 : (fields.filter (fun f => !isRef deps table f)).filter (fun f => !(f == c))
-          = fields.filter (fun f => !isRef deps table f && f != c) := by
-        rw [List.filter_filter]
-        apply List.filter_congr
-        intro x _
-        cases h1 : (x == c) <;> cases h2 : isRef deps table x <;> simp [bne, h1]
-      have := List.filter_append_perm (fun f => f == c) (fields.filter (fun f => !isRef deps table f))
-      rw [e2, e1] at this
-      exact (List.perm_append_comm).trans this
-    exact ((hsplit.append_right _).trans
-      ((List.perm_append_comm).trans (List.filter_append_perm _ _)))
+    cases hcn : isRef deps table c with
+    | true =>
+      rw [plainFields_some_ref deps table fields c hcn]
+      simp only [List.map_map]
+      rw [hmapid]
+      exact (List.perm_append_comm).trans (List.filter_append_perm _ _)
+    | false =>
+      rw [plainFields_some deps table fields c huniq hcn]
+      simp only [List.map_append, List.map_map, List.map_cons, List.map_nil]
+      rw [hmapid]
+      -- non-reference fields = (those ≠ c) ++ [c]
+      have hsplit : (fields.filter (fun f => !isRef deps table f && f != c) ++ [c]).Perm
+          (fields.filter (fun f => !isRef deps table f)) := by
+        have hc := filter_eq_singleton_of_recordType fields c huniq
+        have e2 : (fields.filter (fun f => !isRef deps table f)).filter (fun f => f == c) = [c] := by
+          rw [List.filter_filter]
+          rw [← hc]
+          apply List.filter_congr
+          intro x _
+          by_cases hx : x = c <;> simp [hx, hcn]
+        have e1 : (fields.filter (fun f => !isRef deps table f)).filter (fun f => !(f == c))
+            = fields.filter (fun f => !isRef deps table f && f != c) := by
+          rw [List.filter_filter]
+          apply List.filter_congr
+          intro x _
+          cases h1 : (x == c) <;> cases h2 : isRef deps table x <;> simp [bne, h1]
+        have := List.filter_append_perm (fun f => f == c) (fields.filter (fun f => !isRef deps table f))
+        rw [e2, e1] at this
+        exact (List.perm_append_comm).trans this
+      exact ((hsplit.append_right _).trans
+        ((List.perm_append_comm).trans (List.filter_append_perm _ _)))
 
 theorem plainFields_mem (deps : List Dep) (table : String) (fields : List String) (rt : Option String)
     (hrt : findRecordTypeColumn table fields = .ok rt) (kv : String × String)
     (h : kv ∈ plainFields deps table fields rt) :
     (kv.1 = kv.2 ∧ kv.2 ∈ fields ∧ isRef deps table kv.2 = false) ∨
-      (kv.1 = "RecordTypeId" ∧ rt = some kv.2) := by
+      (kv.1 = "RecordTypeId" ∧ rt = some kv.2 ∧ isRef deps table kv.2 = false) := by
+  have hbase : ∀ p : String → Bool, kv ∈ (fields.filter (fun f => !isRef deps table f && p f)).map (fun f => (f, f)) →
+      (kv.1 = kv.2 ∧ kv.2 ∈ fields ∧ isRef deps table kv.2 = false) := by
+    intro p hkv
+    obtain ⟨f, hf, e⟩ := List.mem_map.mp hkv
+    subst e
+    have := List.mem_filter.mp hf
+    simp only [Bool.and_eq_true, Bool.not_eq_true'] at this
+    exact ⟨rfl, this.1, this.2.1⟩
   cases rt with
   | none =>
     rw [plainFields_none] at h
-    obtain ⟨f, hf, e⟩ := List.mem_map.mp h
-    subst e
-    have := List.mem_filter.mp hf
-    exact Or.inl ⟨rfl, this.1, by simpa using this.2⟩
+    have h' : kv ∈ (fields.filter (fun f => !isRef deps table f && (fun _ => true) f)).map (fun f => (f, f)) := by
+      simpa using h
+    exact Or.inl (hbase _ h')
   | some c =>
-    rw [plainFields_some deps table fields c (recordType_unique table fields c hrt)] at h
-    rcases List.mem_append.mp h with h | h
-    · obtain ⟨f, hf, e⟩ := List.mem_map.mp h
-      subst e
-      have := List.mem_filter.mp hf
-      simp only [Bool.and_eq_true, Bool.not_eq_true'] at this
-      exact Or.inl ⟨rfl, this.1, this.2.1⟩
-    · simp only [List.mem_singleton] at h
-      subst h
-      exact Or.inr ⟨rfl, rfl⟩
+    cases hcn : isRef deps table c with
+    | true =>
+      rw [plainFields_some_ref deps table fields c hcn] at h
+      have h' : kv ∈ (fields.filter (fun f => !isRef deps table f && (fun _ => true) f)).map (fun f => (f, f)) := by
+        simpa using h
+      exact Or.inl (hbase _ h')
+    | false =>
+      rw [plainFields_some deps table fields c (recordType_unique table fields c hrt) hcn] at h
+      rcases List.mem_append.mp h with h | h
+      · exact Or.inl (hbase (fun f => f != c) h)
+      · simp only [List.mem_singleton] at h
+        subst h
+        exact Or.inr ⟨rfl, rfl, hcn⟩
 
 /-! ### the dict of mappings -/
 
